@@ -145,16 +145,29 @@ class Build:
 
 
 # ------------------------------------------------------------------ implementation pool
+def _impl_init():
+    # a change that makes the implementation hoard memory must show up as MemoryError in that worker
+    # (a CRASH record with its input), not as the operating system killing the check
+    import resource
+    try:
+        resource.setrlimit(resource.RLIMIT_AS, (3 << 30, 3 << 30))
+    except Exception:
+        pass
+
+
 def _impl_worker(c):
-    return common.run_impl_case(c, timeout=c.get("timeout", 30.0))
+    try:
+        return common.run_impl_case(c, timeout=c.get("timeout", 30.0))
+    except MemoryError:
+        return {"status": "CRASH", "err": "MemoryError", "site": "harness-worker", "msg": "memory limit of the worker reached"}
 
 
 def run_impl_all(cases, procs=None):
     procs = procs or min(16, os.cpu_count() or 4)
     if len(cases) < 40:
         return [common.run_impl_case(c, timeout=c.get("timeout", 30.0)) for c in cases]
-    with multiprocessing.Pool(procs) as pool:
-        return pool.map(_impl_worker, cases, chunksize=max(1, len(cases) // (procs * 8)))
+    with multiprocessing.Pool(procs, initializer=_impl_init, maxtasksperchild=200) as pool:
+        return pool.map(_impl_worker, cases, chunksize=max(1, min(25, len(cases) // (procs * 8))))
 
 
 def run_model_all(cases, procs=None):
